@@ -51,7 +51,7 @@ PROPS = {
                      "Euler-angle conversion (Eigen::eulerAngles) and SE3(isometry) are covered by the harness only; SE_K_3<2> exp/log embedding is proved on the closed-form paths (via C02) and by harness elsewhere"],
     ),
     "C04": dict(
-        tracer_units=["SO3", "SE2", "SE3"],
+        tracer_units=["SO3", "SE2", "SE3", "Galilei", "SEK3_1", "SEK3_2", "SEK3_3"],
         coq_targets=["Props/Properties_C04.vo", "Props/Properties_C04t.vo", "Props/Properties_C04k.vo", "Props/Properties_C04k2.vo"],
         coq_targets_thorough=["Props/Properties_C04x.vo"],
         props_files=["Props/Properties_C04.v", "Props/Properties_C04t.v", "Props/Properties_C04k.v", "Props/Properties_C04k2.v"],
